@@ -882,7 +882,14 @@ class Exec:
                 return self.ev(e.body, st)
             if z3.is_false(c):
                 return self.ev(e.orelse, st)
-            a, b = self.ev(e.body, st), self.ev(e.orelse, st)
+            sa, sb = st.fork(c), st.fork(z3.Not(c))
+            ma, mb = len(sa.pc), len(sb.pc)
+            a, b = self.ev(e.body, sa), self.ev(e.orelse, sb)
+            for s_, m_, g_ in ((sa, ma, c), (sb, mb, z3.Not(c))):
+                if any(s_.env.get(k) is not v for k, v in st.env.items()) or not _same_heap(s_.heap, st.heap):
+                    raise Unsupported("an arm of a conditional expression has a side effect")
+                for f in s_.pc[m_:]:
+                    st.pc.append(z3.Implies(g_, f))
             if isinstance(a, StrLit) and isinstance(b, StrLit):
                 return TypeV(z3.If(c, self.type_term(a), self.type_term(b)))
             if z3.is_expr(a) or z3.is_expr(b) or isinstance(a, (bool, int)):
@@ -966,6 +973,25 @@ class Exec:
                 # the guard: keep them in the enclosing state in that conditional form
                 for f in guard_st.pc[mark:]:
                     st.pc.append(z3.Implies(z3.And(guards), f))
+                # side effects of a guarded operand happen only when the guard holds: a rebound local collection
+                # (s.pop() inside `a and ...`) becomes the conditional value; anything else is outside the subset
+                gd = z3.And(guards)
+                for nm_, new_ in list(guard_st.env.items()):
+                    old_ = st.env.get(nm_)
+                    if new_ is old_:
+                        continue
+                    if isinstance(new_, Coll) and isinstance(old_, Coll) and new_.is_list == old_.is_list:
+                        cnt_ = None
+                        if new_.cnt is not None or old_.cnt is not None:
+                            cnt_ = lambda y, a=new_, b=old_, gd=gd: z3.If(gd, a.count(y), b.count(y))
+                        st.env[nm_] = Coll(lambda y, a=new_, b=old_, gd=gd: z3.If(gd, a.mem(y), b.mem(y)), cnt=cnt_, is_list=old_.is_list)
+                        guard_st.env[nm_] = st.env[nm_]
+                    elif nm_.startswith("__"):
+                        continue
+                    else:
+                        raise Unsupported(f"local {nm_} is rebound inside a short-circuit operand")
+                if not _same_heap(guard_st.heap, st.heap):
+                    raise Unsupported("state is changed inside a short-circuit operand")
             acc.append(t)
             ts = z3.simplify(t) if z3.is_expr(t) else t
             if (is_or and z3.is_true(ts)) or (not is_or and z3.is_false(ts)):
@@ -1280,6 +1306,9 @@ class Exec:
                 raise _Split(z3.Exists([x], full), sp.exc)
         finally:
             del self.ctx.scope_vars[len(self.ctx.scope_vars) - len(scope):]
+        own = {n_.id for n_ in ast.walk(gen.target) if isinstance(n_, ast.Name)}  # the comprehension's own variables
+        if not _same_heap(gst.heap, st.heap) or any(gst.env.get(k) is not v for k, v in st.env.items() if k not in own):
+            raise Unsupported("a comprehension element or filter has a side effect")
         x = scope[0]
         guard = z3.And([cond] + guards)
         if isinstance(elt, NameV) and elt.term.eq(x):
